@@ -4,7 +4,7 @@ import os, sys, json, time, random, subprocess, re, hashlib, tempfile, shutil, t
 
 VERIF = os.path.dirname(os.path.dirname(os.path.abspath(__file__)))
 LEAN = os.path.join(VERIF, "lean")
-DRIVER = os.path.join(LEAN, ".lake", "build", "bin", "driver")
+DRIVER = os.environ.get("VERIF_DRIVER") or os.path.join(LEAN, ".lake", "build", "bin", "driver")   # VERIF_DRIVER: development only
 LOCK = os.path.join(LEAN, ".build.lock")
 REPO = os.environ.get("VERIF_REPO", "/repo")
 ALLOWED_AXIOMS = {"propext", "Classical.choice", "Quot.sound"}
